@@ -77,6 +77,7 @@ def decAct : List String → Option Act
   | ["mode", s, c, ch] => do pure (.mode (← dec s) (← dec c) (← decChanges ch))
   | ["topic", s, c, t] => do pure (.topic (← dec s) (← dec c) (← dec t))
   | ["chghost", n, i, h] => do pure (.chghost (← dec n) (← dec i) (← dec h))
+  | ["say", n, t, x] => do pure (.say (← dec n) (← dec t) (← dec x))
   | ["names", c] => do pure (.names (← dec c))
   | ["who", c] => do pure (.who (← dec c))
   | ["modeis", c] => do pure (.modeis (← dec c))
